@@ -11,6 +11,17 @@
    The counters live in the *Warnings that one evaluation threads through every Evaluate call: they are STATE, and
    the evaluator below is state passing.
 
+   After e14c6f8 the same state holds the WORK BUDGET of the evaluation (maxEvaluationWork = 5000000):
+     Warnings.spend(v)       charges the size of a value (types.SpendRenderSize: 1 + a third of the bits of a whole
+                             number; 1 for a function) — to the operands and the result of an operator, and to every
+                             argument and the result of a function call; a budget that is already negative, or that
+                             the charge makes negative, turns the value into the error "evaluation takes too long"
+     Warnings.spendWork(100) before every call (after the arguments); a call that the budget does not cover is that
+                             error and is not made
+   The function expression itself, lookups, literals and anonymous-function literals are not charged.  Error messages
+   are not modelled, so an error value is charged 1 where the code charges 1 + the length of its message: the model
+   runs out of budget no earlier than the code, and only for evaluations that pass error values around near the limit.
+
    An anonymous function can be applied to itself — ((f) => f(f))((f) => f(f)) — so evaluation is NOT structurally
    recursive: the model evaluator takes fuel, and [NoFuel] is a result distinct from every value.  The limits are
    arguments of the evaluator ([None] = no limit) so that both the repaired code (Some 100, Some 100000) and the code
@@ -20,6 +31,7 @@
    The fragment: integer literals, +, variables, anonymous functions of any arity, application of any expression to
    any arguments.  Everything else of Excellent is in model/ExEval.v (which has no anonymous functions). *)
 From Coq Require Import ZArith NArith List Bool.
+From Verif Require Import model.ExValues.
 Import ListNotations.
 
 Inductive lexpr :=
@@ -40,7 +52,7 @@ with lenv :=
 | ENil
 | ECons (x : N) (v : lval) (rest : lenv).
 
-Record lstate := LState { calls : N; depth : nat }.
+Record lstate := LState { calls : N; depth : nat; wleft : Z }.      (* work: what is left of the budget *)
 
 Inductive lres := LRet (v : lval) | LNoFuel.
 
@@ -66,10 +78,34 @@ Definition over (limit : option nat) (n : nat) : bool :=
 Definition over_calls (limit : option N) (n : N) : bool :=
   match limit with Some l => N.leb l n | None => false end.
 
+(* types.spendSize of a value of the fragment (not nested in anything) *)
+Definition lcost (v : lval) : Z :=
+  match v with
+  | LVNum z => (1 + bit_len z / 3)%Z
+  | _ => 1%Z
+  end.
+
+Definition function_call_work : Z := 100%Z.
+Definition max_evaluation_work : Z := 5000000%Z.
+
 Section Limits.
 
 Variable max_depth : option nat.        (* maxAnonFunctionDepth *)
 Variable max_calls : option N.          (* maxAnonFunctionCalls *)
+Variable charged : bool.                (* whether there is a work budget (e14c6f8) *)
+
+(* Warnings.spendWork(n): false if the budget is used up already or by this *)
+Definition spend_work (n : Z) (st : lstate) : bool * lstate :=
+  if negb charged then (true, st)
+  else if (wleft st <? 0)%Z then (false, st)
+  else let w := (wleft st - n)%Z in ((0 <=? w)%Z, LState (calls st) (depth st) w).
+
+(* Warnings.spend(v) *)
+Definition spend (v : lval) (st : lstate) : lval * lstate :=
+  match spend_work (lcost v) st with
+  | (true, st') => (v, st')
+  | (false, st') => (LVErr, st')
+  end.
 
 Fixpoint leval (fuel : nat) (st : lstate) (env : lenv) (e : lexpr) : lres * lstate :=
   match fuel with
@@ -80,10 +116,13 @@ Fixpoint leval (fuel : nat) (st : lstate) (env : lenv) (e : lexpr) : lres * lsta
     | LVar x => (LRet (match lookup env x with Some v => v | None => LVErr end), st)
     | LAdd a b =>
         match leval fuel' st env a with
-        | (LRet va, st1) =>
-            match leval fuel' st1 env b with
-            | (LRet vb, st2) =>
-                (LRet (match va, vb with LVNum x, LVNum y => LVNum (x + y) | _, _ => LVErr end), st2)
+        | (LRet va0, st1) =>
+            let (va, st1') := spend va0 st1 in
+            match leval fuel' st1' env b with
+            | (LRet vb0, st2) =>
+                let (vb, st2') := spend vb0 st2 in
+                let (r, st3) := spend (match va, vb with LVNum x, LVNum y => LVNum (x + y) | _, _ => LVErr end) st2' in
+                (LRet r, st3)
             | other => other
             end
         | other => other
@@ -96,13 +135,20 @@ Fixpoint leval (fuel : nat) (st : lstate) (env : lenv) (e : lexpr) : lres * lsta
             match fv with
             | LVClo ps body cenv =>
                 match leval_args fuel' st1 env args with
-                | (Some vs, st2) =>
-                    if negb (Nat.eqb (length vs) (length ps)) then (LRet LVErr, st2)           (* NumArgsCheck *)
-                    else if over max_depth (depth st2) then (LRet LVErr, st2)
-                    else if over_calls max_calls (calls st2) then (LRet LVErr, st2)
+                | (Some vs, st2a) =>
+                    let (covered, st2) := spend_work function_call_work st2a in
+                    if negb covered then (LRet LVErr, st2)                                       (* evaluation takes too long *)
                     else
-                      match leval fuel' (LState (N.succ (calls st2)) (S (depth st2))) (bind ps vs cenv) body with
-                      | (r, st3) => (r, LState (calls st3) (depth st2))                          (* defer anonDepth-- *)
+                      (* XFunction.Call; its result, an error included, is charged *)
+                      match (if negb (Nat.eqb (length vs) (length ps)) then (LRet LVErr, st2)  (* NumArgsCheck *)
+                             else if over max_depth (depth st2) then (LRet LVErr, st2)
+                             else if over_calls max_calls (calls st2) then (LRet LVErr, st2)
+                             else
+                               match leval fuel' (LState (N.succ (calls st2)) (S (depth st2)) (wleft st2)) (bind ps vs cenv) body with
+                               | (r, st3) => (r, LState (calls st3) (depth st2) (wleft st3))       (* defer anonDepth-- *)
+                               end) with
+                      | (LRet r0, st3) => let (r, st4) := spend r0 st3 in (LRet r, st4)
+                      | other => other
                       end
                 | (None, st2) => (LNoFuel, st2)
                 end
@@ -120,8 +166,9 @@ with leval_args (fuel : nat) (st : lstate) (env : lenv) (args : largs) : option 
     | ANil => (Some [], st)
     | ACons e rest =>
         match leval fuel' st env e with
-        | (LRet v, st1) =>
-            match leval_args fuel' st1 env rest with
+        | (LRet v0, st1) =>
+            let (v, st1') := spend v0 st1 in                                               (* spendArgument *)
+            match leval_args fuel' st1' env rest with
             | (Some vs, st2) => (Some (v :: vs), st2)
             | other => other
             end
@@ -136,8 +183,11 @@ End Limits.
 Definition max_anon_function_depth : nat := 100.
 Definition max_anon_function_calls : N := 100000%N.
 
-Definition leval_limited := leval (Some max_anon_function_depth) (Some max_anon_function_calls).
-Definition leval_unlimited := leval None None.
+Definition leval_limited := leval (Some max_anon_function_depth) (Some max_anon_function_calls) true.
+Definition leval_unlimited := leval None None false.
+
+(* the state an evaluation starts in *)
+Definition lstate0 : lstate := LState 0 0 max_evaluation_work.
 
 (* height of an expression (a bound on the recursion needed between two calls) *)
 Fixpoint height (e : lexpr) : nat :=
